@@ -1,13 +1,15 @@
 """C01 — hard box bounds are never left."""
 from harness import comp_grid as G, runlevel as R, skel as S
 
-PROPS = ["Props/C01.v", "Props/C01grid.v"]
-TRANSLATORS = ["transform", "grid"]
+PROPS = ["Props/C01.v", "Props/C01grid.v", "Props/C01src.v"]
+TRANSLATORS = ["transform", "grid", "filter"]
 THEOREMS = ["C01_original_space_clamp", "C01_filter_output_in_hard_box", "C01_search_box_inside", "C01_calls_are_oracle_points", "C01_internal_points_in_box",
             # Props/C01grid.v: about gen/Src_grid.v (force_to_grid, _update_search_bounds_, the gridised + nudged x0 of _init_optim_state_)
             "C01_force_to_grid", "C01_search_box_extreme_grid_points", "C01_search_box_nonempty_iff", "C01_search_box_nonempty_refuted",
             "C01_search_box_sites_agree", "C01_search_box_within_hard_box", "C01_start_nudged_in_box", "C01_start_recheck_exact",
-            "C01_start_in_box_unit_geometry", "C01_start_no_nudge_unit_geometry", "C01_start_nudged_in_any_box_refuted", "C01_hand_model_is_source"]
+            "C01_start_in_box_unit_geometry", "C01_start_no_nudge_unit_geometry", "C01_start_nudged_in_any_box_refuted", "C01_hand_model_is_source",
+            # Props/C01src.v: about gen/Src_filter.v (contraints_check regenerated from the source by translate/filter.py)
+            "C01_constraint_points_in_box_are_source"]
 ALLOWED_AXIOMS = ["ClassicalDedekindReals.sig_forall_dec", "ClassicalDedekindReals.sig_not_dec",
                   "FunctionalExtensionality.functional_extensionality_dep", "Classical_Prop.classic"]
 AXIOM_THEOREMS = ["C01_original_space_clamp"]      # every other theorem of this property must be closed under the global context
@@ -20,6 +22,8 @@ RULE = ("real runs over the panel (D 1-4; linear / log-transformed / unbounded /
         "narrower than a step (with and without a grid point), degenerate, infinite and huge bounds; compared EXACTLY with the translated definitions (Python Fractions and Coq vm_compute); "
         "real BADS objects and every projected filter call of the recorded runs are compared too")
 TRUSTED = ["Coq 8.16.1 kernel + vm_compute", "hand-written models Model/Skeleton.v, Model/Filter.v tied to the code by differential correspondence",
+           "translate/filter.py regenerates contraints_check on every run (gen/Src_filter.v; fail-closed ast whitelist, NumPy primitives read as in Model/FilterSrc.v); "
+           "C01_constraint_points_in_box_are_source is about it; validated each run by vm_compute against the real function (correspondence:filter_source; in full by C17's tie)",
            "translate/transform.py regenerates the clamp expressions of variables_transformer.py on every run (C01_original_space_clamp is about them); standard real-number axioms for that theorem only",
            "translate/grid.py regenerates force_to_grid, _update_search_bounds_ and the search-box / starting-point statements of _init_optim_state_ and optimize() on every run (gen/Src_grid.v; fail-closed ast "
            "whitelist; per-coordinate reading of masked array assignments, documented in its header); validated each run against the real code exactly (Fractions, Coq vm_compute)",
@@ -138,6 +142,8 @@ def rerun_object_runs(ctx):
 
 
 def tie(ctx, broken):
+    from harness import comp_filter as FS
+    FS.tie_source_small(ctx, broken, 800 if ctx.quick else 4000)     # gen/Src_filter.v (Props/C01src.v) against the real contraints_check
     nrr, badrr = rerun_object_runs(ctx)
     ctx.count(nrr, nrr)
     if not ctx.oblige("second_optimize_on_one_object", "correspondence", badrr is None, str(badrr)):
